@@ -908,7 +908,7 @@ class Gen:
     def deep(self):
         r = self.r
         kind = r.choice(["add-chain", "add-chain", "nonlinear-chain", "nonlinear-chain", "evens", "evens", "long-expr", "nest-brackets", "nest-repeat", "label-chain", "size-chain", "mixed-aligns", "many-symbols", "many-files", "alias-chain", "alias-chain", "nonadditive-ring",
-                           "dag-chain", "dag-chain", "dag-chain", "include-graph", "huge-count", "huge-count"])
+                           "dag-chain", "dag-chain", "dag-chain", "dag-ring", "dag-ring", "include-graph", "huge-count", "huge-count"])
         self.tags.append("deep:" + kind)
         if "deep:" + kind in self.ACYCLIC_DEEP:
             self.tags.append("acyclic")
@@ -1003,6 +1003,24 @@ class Gen:
             if "." not in defs[0]:
                 self.tags.append("acyclic")
             lines = self.ordered(defs, use, r.choice(["backward", "backward", "shuffled", "forward"]))
+        elif kind == "dag-ring":
+            # a ring closed through a DAG-shaped chain: x0 is defined from x_k; every definition uses its predecessor twice or more.
+            # Must be rejected with recursive-definition, quickly (was 2**n attempts before fix 22284d4)
+            n = r.choice([3, 8, 12, 17, 20, 30, 40, 60])
+            k = r.choice([1, 2, n // 2, n - 1, n, r.randrange(1, n + 1)])
+            forms = ["{a}*{a}", "{a}*{a}*{a}", "{a}+{a}", "{a}-{a}+{a}", "({a}+1)*({a}-1)", "{a}*{b}", "{a}*{a}+{b}", "{a}*{a}-{b}*{b}", "<{a}>*<{a}>", "{a}*{a}/1", "{a}*{a} % 7", "-{a}*{a}"]
+            form = r.choice(forms) if self.p(0.6) else None
+            defs = [f"x0 = x{k} {r.choice(['+ 1', '* 2', '* x' + str(k), '+ 0', '/ 2'])}"]
+            for i in range(1, n + 1):
+                f = form or r.choice(forms)
+                defs.append(f"x{i} = " + f.format(a=f"x{i - 1}", b=f"x{max(i - 2, 0)}"))
+            use = r.choice([f".word x{n}", f".byte x{n} & 1", f"mov #x{n}, r0", f".blkb x{n} & 3", f".word x{n}, x{k}"])
+            order = r.choice(["backward", "shuffled", "forward", "use-mid"])
+            if order == "use-mid":
+                lines = defs[1:] + [use, defs[0]]        # the shape of the report: chain, use, then the definition that closes the ring
+            else:
+                lines = self.ordered(defs, use, order)
+            self.tags.append("must-fail:recursive-definition")
         elif kind == "include-graph":
             lines = self.block(r.choice([0, 1, 3]), 0, False) + self.include_graph().split("\n") + self.block(r.choice([0, 1]), 0, False)
             fs = dict(self.fs)
